@@ -673,13 +673,15 @@ def raw_snapshot(proc):
             snap["pipeline.%s.__attrs__" % g] = {k: canon_small(v) for k, v in vars(grp).items() if k not in ("_log", "models")}
             for i, m in enumerate(grp.models):
                 for k, v in vars(m).items():
-                    if k in ("_func", "_arguments"):
+                    if k in ("_func", "_arguments") or callable(v) or type(v).__name__ == "Arguments":
                         continue
                     snap["pipeline.%s[%d].%s" % (g, i, k)] = canon_small(v)
-                for k, v in vars(m._arguments).items():
-                    if k != "_arguments":
+                args = m.arguments  # public view of the arguments object
+                inner = [k for k, v in vars(args).items() if isinstance(v, dict)]  # the mapping it wraps, whatever its name
+                for k, v in vars(args).items():
+                    if k not in inner:
                         snap["pipeline.%s[%d].arguments.__attr__%s" % (g, i, k)] = canon_small(v)
-                for k, v in m._arguments._arguments.items():
+                for k, v in dict(args).items():
                     snap["pipeline.%s[%d].arguments.%s" % (g, i, k)] = canon_small(v)
     return snap
 
